@@ -75,12 +75,12 @@ proof fn lemma_row_bounds(row: Seq<(BlockHash, u32)>, target: BlockHash, n: int)
 //@end
 
 // [trusted:stand-in] AddressUtxoSet as seen by the walk: only the sequence of blocks applied so far is tracked (apply_block itself is verified below)
-struct AddressUtxoSetLog { applied: Ghost<Seq<BlockHash>>, opaque: u64 }
+struct AddressUtxoSetLog { applied: Ghost<Seq<BlockHash>>, address: Ghost<Address>, opaque: u64 }
 impl AddressUtxoSetLog {
     // [trusted:assumed-contract] AddressUtxoSet::apply_block records the block's per-address delta (entry-API OutPointsCache + BTreeSets)
     #[verifier::external_body]
     fn apply_block(&mut self, block_hash: &BlockHash)
-        ensures final(self).applied@ == old(self).applied@.push(*block_hash),
+        ensures final(self).applied@ == old(self).applied@.push(*block_hash), final(self).address@ == old(self).address@,
     { unimplemented!() }
 }
 //@extract file=interface/src/lib.rs item="enum GetUtxosError" rename_type=GetUtxosErrorFull
@@ -598,8 +598,15 @@ impl Page {
 // [trusted:stand-in] the response / statistics types (opaque), Page::from_bytes as a function of the bytes (its totality and its
 // inverse are the Kani harnesses c06_page_* and the length-guard slice above), get_utxos_from_chain as an opaque function of
 // its arguments (its pieces are the slices above)
-struct GetUtxosResponseFull { payload: u64 }
-struct Stats { payload: u64 }
+struct ByteBuf { bytes: Vec<u8> }
+struct GetUtxosResponseFull { utxos: Vec<PublicUtxo>, tip_block_hash: Vec<u8>, tip_height: u32, next_page: Option<ByteBuf> }
+//@extract file=canister/src/api/get_utxos.rs item="struct Stats"
+//@ rewrite R2? "#\[derive\(([^\]]*)\)\]" => ""
+//@end
+impl Stats {
+    // [trusted:stand-in] #[derive(Default)] on Stats: all counters zero
+    fn default() -> (r: Stats) { Stats { ins_total: 0, ins_apply_unstable_blocks: 0, ins_build_utxos_vec: 0 } }
+}
 uninterp spec fn page_decode_spec(bytes: Seq<u8>) -> Option<Page>;
 impl Page {
     #[verifier::external_body]
@@ -641,4 +648,256 @@ fn get_utxos_from_chain(state: &State, address: &str, min_confirmations: u32, ch
 //@|                 },
 //@|         },
 //@|     },
+//@end
+
+// ---- C01 / C04 / C06: get_utxos_from_chain as a WHOLE (get_utxos.rs:192): the slices above composed, so that the glue between
+// ---- them (which tip is reported, which limit is used, what the token is built from) is proved too ---------------------------
+//@extract file=canister/src/types.rs item="enum AddressParseError"
+//@ rewrite R2? "#\[derive\(([^\]]*)\)\]" => ""
+//@end
+uninterp spec fn address_parse_spec(text: Seq<char>, network: Network) -> Result<Address, AddressParseError>;
+impl Address {
+    // [trusted:stand-in] Address::from_str_checked (types.rs; rust-bitcoin address parser): a function of the text and the network
+    #[verifier::external_body]
+    fn from_str_checked(text: &str, network: Network) -> (r: Result<Address, AddressParseError>)
+        ensures r == address_parse_spec(text@, network),
+    { unimplemented!() }
+}
+impl State {
+    // [trusted:stand-in] State::get_utxos (state.rs:119, AddressUtxoSet::new): an empty overlay for the address
+    #[verifier::external_body]
+    fn get_utxos(&self, address: Address) -> (r: AddressUtxoSetLog)
+        ensures r.applied@.len() == 0, r.address@ == address,
+    { unimplemented!() }
+}
+// the lazy merged stream of the stable index and the overlay (AddressUtxoSet::into_iter + MultiIter + the map to the public
+// representation): an uninterpreted function of (address, blocks applied, offset)
+uninterp spec fn merged_view_spec(state: &State, address: Address, applied: Seq<BlockHash>, offset: Option<Utxo>) -> Seq<PublicUtxo>;
+spec fn seq_take<T>(s: Seq<T>, n: int) -> Seq<T> { if n >= s.len() { s } else { s.subrange(0, n) } }
+// [trusted:stand-in] `address_utxos.into_iter(offset).take(n).map(|utxo| PublicUtxo{..}).collect()` (get_utxos.rs:246-262, R9 turns the
+// pipeline into this call keeping the argument of take): the first n elements of the merged stream
+#[verifier::external_body]
+fn vp_collect_page(state: &State, address_utxos: AddressUtxoSetLog, offset: Option<Utxo>, n: usize) -> (r: Vec<PublicUtxo>)
+    ensures r@ == seq_take(merged_view_spec(state, address_utxos.address@, address_utxos.applied@, offset), n as int),
+{ unimplemented!() }
+// [trusted:stand-in] `next_page.map(ByteBuf::from)`
+#[verifier::external_body]
+fn vp_bytebuf_opt(p: Option<Vec<u8>>) -> (r: Option<ByteBuf>)
+    ensures r.is_some() == p.is_some(), r matches Some(b) ==> b.bytes@ == p.unwrap()@,
+{ unimplemented!() }
+
+//@extract file=canister/src/api/get_utxos.rs item="fn get_utxos_from_chain" props=C01,C04,C06,C02 rename=get_utxos_from_chain_whole
+//@ ret r
+//@ sigrewrite R3 "GetUtxosError" => "GetUtxosErrorFull"
+//@ sigrewrite R3 "GetUtxosResponse" => "GetUtxosResponseFull"
+//@ sigrewrite R3 "chain: BlockChain<CachedBlock>" => "chain: BlockChain<'a, CachedBlock>"
+//@ sigrewrite R3 "state: &State" => "state: &'a State"
+//@ sigrewrite R3 "fn get_utxos_from_chain\(" => "fn get_utxos_from_chain<'a>("
+//@ rewrite R3 "GetUtxosError::" => "GetUtxosErrorFull::"
+//@ rewrite R3 "GetUtxosResponse \{" => "GetUtxosResponseFull {"
+//@ rewrite R10 "let address = (Address::from_str_checked\(address, state\.network\(\)\))\.map_err\(\|e\| (match e \{.*?\n    \})\)\?;" => "let address = match \1 { Ok(vp_a) => vp_a, Err(e) => return Err(\2) };"
+//@ rewrite R4 "for \(i, block\) in chain\.into_chain\(\)\.iter\(\)\.enumerate\(\) \{" => "let vp_chain = chain.into_chain(); let mut vp_n: usize = 0; for block in it: vp_chain.iter() { let i = vp_n; vp_n = vp_n + 1; proof { lemma_walk_step(state, blocks_with_depths_by_heights@, vp_rows, vp_chain@, vp_chain_view, i as int); }"
+//@ rewrite R9 "let mut utxos: Vec<_> = address_utxos\s*\.into_iter\(offset\)\s*\.take\((\w+)\)\s*\.map\(\|utxo\| \{.*?\n        \}\)\s*\.collect\(\);" => "let mut utxos: Vec<PublicUtxo> = vp_collect_page(state, address_utxos, offset, \1);"
+//@ rewrite R9 "\.map\(\|next\| \{" => ".map(|next: &PublicUtxo| -> (vp_b: Vec<u8>) ensures vp_b@ == page_bytes_spec(*tip_block_hash, next.height, outpoint_new_spec(txid_of(next.outpoint.txid), next.outpoint.vout)) {"
+//@ rewrite R9 "next_page\.map\(ByteBuf::from\)" => "vp_bytebuf_opt(next_page)"
+//@ spec
+//@| requires
+//@|     state_ranges(state),
+//@|     1 <= chain@.len() <= state.unstable_blocks.tree.sdepth(),
+//@|     chain@.len() < 0x8000_0000,
+//@|     rows_small(rows_spec(&state.unstable_blocks.tree)),
+//@|     utxo_limit < usize::MAX,
+//@| ensures
+//@|     match address_parse_spec(address@, state.utxos.network) {
+//@|         // both kinds of unparsable address are refused with their own error
+//@|         Err(AddressParseError::MalformedAddress) => r matches Err(GetUtxosErrorFull::MalformedAddress),
+//@|         Err(AddressParseError::WrongNetwork { expected }) => r matches Err(GetUtxosErrorFull::AddressForWrongNetwork { expected: e2 }) && e2 == expected,
+//@|         Ok(a) =>
+//@|             if chain@.len() < min_confirmations {
+//@|                 r matches Err(GetUtxosErrorFull::MinConfirmationsTooLarge { given, max }) && given == min_confirmations && max == chain@.len()
+//@|             } else {
+//@|                 r matches Ok(p) && ({
+//@|                     let k = cut_len(rows_spec(&state.unstable_blocks.tree), chain@, min_confirmations as int, chain@.len() as int);
+//@|                     let tip = if k == 0 { chain@[0].block_hash } else { chain@[k - 1].block_hash };
+//@|                     let src = merged_view_spec(state, a, chain_hashes(chain@).subrange(0, k), offset);
+//@|                     // the tip named is the last block applied, with its height
+//@|                     &&& p.0.tip_block_hash@ == tip.bytes_spec()
+//@|                     &&& p.0.tip_height == (if k == 0 { state.utxos.next_height as int } else { state.utxos.next_height + k - 1 })
+//@|                     // at most `limit` elements: the first ones of the stream as of that tip, in order
+//@|                     &&& p.0.utxos@ == seq_take(src, utxo_limit as int)
+//@|                     // a next page iff something is left; its token names THIS tip and the first omitted element
+//@|                     &&& p.0.next_page.is_some() <==> src.len() > utxo_limit
+//@|                     &&& (p.0.next_page matches Some(b) ==> b.bytes@ == page_bytes_spec(tip, src[utxo_limit as int].height,
+//@|                             outpoint_new_spec(txid_of(src[utxo_limit as int].outpoint.txid), src[utxo_limit as int].outpoint.vout)))
+//@|                 })
+//@|             },
+//@|     },
+//@ before "let ins_start = performance_counter();" nth=1
+//@| let ghost vp_chain_view = chain@;
+//@| let ghost vp_rows = rows_spec(&state.unstable_blocks.tree);
+//@| let ghost vp_c = min_confirmations as int;
+//@ loop 1
+//@| invariant_except_break
+//@|     vp_n == it.index@,
+//@|     cut_len(vp_rows, vp_chain_view, vp_c, it.index@) == it.index@,
+//@|     address_utxos.applied@ =~= chain_hashes(vp_chain_view).subrange(0, it.index@),
+//@|     *tip_block_hash == (if it.index@ == 0 { vp_chain_view[0].block_hash } else { vp_chain_view[it.index@ - 1].block_hash }),
+//@|     tip_block_height == (if it.index@ == 0 { state.utxos.next_height as int } else { state.utxos.next_height + it.index@ - 1 }),
+//@| invariant
+//@|     state_ranges(state),
+//@|     it.index@ <= vp_chain@.len(),
+//@|     deref_seq(vp_chain@) =~= vp_chain_view,
+//@|     vp_rows == rows_spec(&state.unstable_blocks.tree),
+//@|     vp_c == min_confirmations as int,
+//@|     vp_c <= vp_chain_view.len(),
+//@|     vp_chain_view.len() < 0x8000_0000,
+//@|     1 <= vp_chain_view.len() <= state.unstable_blocks.tree.sdepth(),
+//@|     blocks_with_depths_by_heights@.len() == state.unstable_blocks.tree.sdepth(),
+//@|     vp_rows.len() == blocks_with_depths_by_heights@.len(),
+//@|     forall|i: int| 0 <= i < blocks_with_depths_by_heights@.len() ==> row_view((#[trigger] blocks_with_depths_by_heights@[i])@) =~= vp_rows[i],
+//@|     rows_small(vp_rows),
+//@|     address_utxos.address@ == address,
+//@| ensures
+//@|     walk_result(state, vp_chain_view, vp_c, address_utxos.applied@, *tip_block_hash, tip_block_height),
+//@|     address_utxos.address@ == address,
+//@ before "tip_block_hash = block.block_hash();"
+//@| proof {
+//@|     assert(row_view(blocks_with_depths_by_heights@[i as int]@) =~= vp_rows[i as int]);
+//@|     assert(vp_c <= 0 || count_at(vp_rows, vp_chain_view, i as int) >= vp_c);
+//@| }
+//@ before "break;"
+//@| proof { lemma_cut_stuck(vp_rows, vp_chain_view, vp_c, i as int, vp_chain_view.len() as int); }
+//@end
+
+// ---- C05: get_balance_private up to its metrics (get_balance.rs:37-98): which requests are refused, which chain and which
+// ---- confirmation rule the balance is computed with -----------------------------------------------------------------------------
+//@extract file=interface/src/lib.rs item="enum GetBalanceError"
+//@ rewrite R2? "#\[derive\(([^\]]*)\)\]" => ""
+//@ rewrite R3 "enum GetBalanceError" => "enum GetBalanceErrorFull"
+//@end
+//@extract file=canister/src/api/get_balance.rs item="struct Stats"
+//@ rewrite R2? "#\[derive\(([^\]]*)\)\]" => ""
+//@ rewrite R3 "struct Stats" => "struct BalanceStats"
+//@end
+uninterp spec fn stable_balance_spec(utxos: &UtxoSet, a: Address) -> u64;
+impl UtxoSet {
+    // [trusted:stand-in] UtxoSet::get_balance (stable balance map lookup): a function of the stable set and the address
+    #[verifier::external_body]
+    fn get_balance(&self, address: &Address) -> (r: u64) ensures r == stable_balance_spec(self, *address) { unimplemented!() }
+}
+//@slice file=canister/src/api/get_balance.rs item="fn get_balance_private" to_before="// Observe metrics" props=C05
+//@ r7 ro="vp_state()" type=State
+//@ rewrite R3 "GetBalanceError::" => "GetBalanceErrorFull::"
+//@ rewrite R3 "Stats \{" => "BalanceStats {"
+//@ rewrite R10 "let address = (Address::from_str_checked\(&request\.address, network\))\.map_err\(\|e\| (match e \{.*?\n    \})\)\?;" => "let address = match \1 { Ok(vp_a) => vp_a, Err(e) => return Err(\2) };"
+//@ rewrite R4 "for \(i, block\) in main_chain\.into_chain\(\)\.iter\(\)\.enumerate\(\) \{" => "let vp_chain = main_chain.into_chain(); let mut vp_n: usize = 0; for block in it: vp_chain.iter() { let i = vp_n; vp_n = vp_n + 1; proof { lemma_walk_step(state, blocks_with_depths_by_heights@, vp_rows, vp_chain@, vp_chain_view, i as int); }"
+//@ rewrite R4 "for outpoint in state\s*\.unstable_blocks\s*\.get_added_outpoints\(block\.block_hash\(\), &address\)\s*\{" => "for outpoint in ita: state.unstable_blocks.get_added_outpoints(block.block_hash(), &address) {"
+//@ rewrite R4 "for outpoint in state\s*\.unstable_blocks\s*\.get_removed_outpoints\(block\.block_hash\(\), &address\)\s*\{" => "for outpoint in itr: state.unstable_blocks.get_removed_outpoints(block.block_hash(), &address) {"
+//@ head
+//@| // R8 slice: get_balance_private without its trailing metrics / logging. R7: `with_state(|state| { .. return Err(e) .. })?` becomes a
+//@| // block, where the closure's `return Err(e)` followed by `?` is the function's `return Err(e)`
+//@| fn get_balance_private_core(request: types::GetBalanceRequest) -> (r: Result<u64, GetBalanceErrorFull>)
+//@|     requires
+//@|         state_ranges(&global_state()),
+//@|         global_state().unstable_blocks.tree.best_path().len() < 0x8000_0000,
+//@|         rows_small(rows_spec(&global_state().unstable_blocks.tree)),
+//@|         cache_lists_have_tx_outs(&global_state().unstable_blocks),
+//@|         forall|a: Address| balances_in_range(&global_state().unstable_blocks, a, global_state().unstable_blocks.tree.best_path(), stable_balance_spec(&global_state().utxos, a) as int),
+//@|     ensures
+//@|         ({
+//@|             let s = global_state();
+//@|             let c = match request.min_confirmations { Some(c) => c, None => 0u32 };
+//@|             let chain = s.unstable_blocks.tree.best_path();
+//@|             match address_parse_spec(request.address@, s.utxos.network) {
+//@|                 // the same refusals as get_utxos_from_chain: same parser, same network, same bound on c
+//@|                 Err(AddressParseError::MalformedAddress) => r matches Err(GetBalanceErrorFull::MalformedAddress),
+//@|                 Err(AddressParseError::WrongNetwork { expected }) => r matches Err(GetBalanceErrorFull::AddressForWrongNetwork { expected: e2 }) && e2 == expected,
+//@|                 Ok(a) =>
+//@|                     if chain.len() < c {
+//@|                         r matches Err(GetBalanceErrorFull::MinConfirmationsTooLarge { given, max }) && given == c && max == chain.len()
+//@|                     } else {
+//@|                         // the stable balance plus the deltas of exactly the blocks get_utxos applies for the same (address, c)
+//@|                         r == Ok::<u64, GetBalanceErrorFull>(balance_after(&s.unstable_blocks, a, chain, stable_balance_spec(&s.utxos, a) as int,
+//@|                                 cut_len(rows_spec(&s.unstable_blocks.tree), chain, c as int, chain.len() as int)) as u64)
+//@|                     },
+//@|             }
+//@|         }),
+//@| {
+//@ tail
+//@|     Ok(balance)
+//@| }
+//@ before "let ins_start = performance_counter();"
+//@| let ghost vp_chain_view = main_chain@;
+//@| let ghost vp_rows = rows_spec(&state.unstable_blocks.tree);
+//@| let ghost vp_c = min_confirmations as int;
+//@| let ghost vp_ub = &state.unstable_blocks;
+//@| let ghost vp_b0 = balance as int;
+//@| proof { state.unstable_blocks.tree.lemma_best_path_is_leaf(); lemma_best_path_le_depth(&state.unstable_blocks.tree); }
+//@ loop 1
+//@| invariant_except_break
+//@|     vp_n == it.index@,
+//@|     cut_len(vp_rows, vp_chain_view, vp_c, it.index@) == it.index@,
+//@|     balance == balance_after(vp_ub, address, vp_chain_view, vp_b0, it.index@),
+//@| invariant
+//@|     state_ranges(state),
+//@|     it.index@ <= vp_chain@.len(),
+//@|     deref_seq(vp_chain@) =~= vp_chain_view,
+//@|     vp_rows == rows_spec(&state.unstable_blocks.tree),
+//@|     vp_ub == &state.unstable_blocks,
+//@|     vp_c == min_confirmations as int,
+//@|     vp_c <= vp_chain_view.len(),
+//@|     vp_chain_view.len() < 0x8000_0000,
+//@|     1 <= vp_chain_view.len() <= state.unstable_blocks.tree.sdepth(),
+//@|     blocks_with_depths_by_heights@.len() == state.unstable_blocks.tree.sdepth(),
+//@|     vp_rows.len() == blocks_with_depths_by_heights@.len(),
+//@|     forall|i: int| 0 <= i < blocks_with_depths_by_heights@.len() ==> row_view((#[trigger] blocks_with_depths_by_heights@[i])@) =~= vp_rows[i],
+//@|     rows_small(vp_rows),
+//@|     balances_in_range(vp_ub, address, vp_chain_view, vp_b0),
+//@|     cache_lists_have_tx_outs(vp_ub),
+//@| ensures
+//@|     balance == balance_after(vp_ub, address, vp_chain_view, vp_b0, cut_len(vp_rows, vp_chain_view, vp_c, vp_chain_view.len() as int)),
+//@ loop 2
+//@| invariant
+//@|     0 <= i < vp_chain_view.len(),
+//@|     block.block_hash == vp_chain_view[i as int].block_hash,
+//@|     balances_in_range(vp_ub, address, vp_chain_view, vp_b0),
+//@|     cache_lists_have_tx_outs(vp_ub),
+//@|     vp_ub == &state.unstable_blocks,
+//@|     balance == bal_mid_add(vp_ub, address, vp_chain_view, vp_b0, i as int, ita.index@),
+//@ loop 3
+//@| invariant
+//@|     0 <= i < vp_chain_view.len(),
+//@|     block.block_hash == vp_chain_view[i as int].block_hash,
+//@|     balances_in_range(vp_ub, address, vp_chain_view, vp_b0),
+//@|     cache_lists_have_tx_outs(vp_ub),
+//@|     vp_ub == &state.unstable_blocks,
+//@|     balance == bal_mid_rem(vp_ub, address, vp_chain_view, vp_b0, i as int, itr.index@),
+//@ before "break;"
+//@| proof { lemma_cut_stuck(vp_rows, vp_chain_view, vp_c, i as int, vp_chain_view.len() as int); }
+//@ before "let (txout, _) = state.unstable_blocks.get_tx_out(outpoint).unwrap();" nth=1
+//@| proof {
+//@|     let ghost sq0 = added_spec(vp_ub, vp_chain_view[i as int].block_hash, address);
+//@|     assert(*outpoint == sq0[ita.index@]);
+//@|     assert(has_tx_out(vp_ub, sq0[ita.index@]));
+//@| }
+//@ before "let (txout, _) = state.unstable_blocks.get_tx_out(outpoint).unwrap();" nth=2
+//@| proof {
+//@|     let ghost sq0 = removed_spec(vp_ub, vp_chain_view[i as int].block_hash, address);
+//@|     assert(*outpoint == sq0[itr.index@]);
+//@|     assert(has_tx_out(vp_ub, sq0[itr.index@]));
+//@| }
+//@ before "balance += txout.value;"
+//@| proof {
+//@|     let ghost sq = added_spec(vp_ub, vp_chain_view[i as int].block_hash, address);
+//@|     assert(*outpoint == sq[ita.index@]);
+//@|     assert(sum_values(vp_ub, sq, ita.index@ + 1) == sum_values(vp_ub, sq, ita.index@) + value_spec(vp_ub, sq[ita.index@]));
+//@|     assert(0 <= bal_mid_add(vp_ub, address, vp_chain_view, vp_b0, i as int, ita.index@ + 1) <= u64::MAX);
+//@| }
+//@ before "balance -= txout.value;"
+//@| proof {
+//@|     let ghost sq = removed_spec(vp_ub, vp_chain_view[i as int].block_hash, address);
+//@|     assert(*outpoint == sq[itr.index@]);
+//@|     assert(sum_values(vp_ub, sq, itr.index@ + 1) == sum_values(vp_ub, sq, itr.index@) + value_spec(vp_ub, sq[itr.index@]));
+//@|     assert(0 <= bal_mid_rem(vp_ub, address, vp_chain_view, vp_b0, i as int, itr.index@ + 1) <= u64::MAX);
+//@| }
 //@end
